@@ -14,7 +14,7 @@ def run(tier):
             "--dev-immediate", "1", "--imm-reduced", "0" if thorough else "1", "--deadline", str(1500 if thorough else 150)]
     if not thorough:
         # the two smallest programs (flat; orthogonal root) once more with two deviations (e.g. a guard-issued follow-up request that is vetoed in its round)
-        d2 = en.curated(names=["flat3"]) + [en.Prog("tinyortho", "O(C(l,l),l)")]
+        d2 = en.curated(names=["flat3"]) + [en.Prog("tinyortho", "O(C(l,l),l)"), en.Prog("tinyortho2", "C(O(l,l),l)")]
         for p in d2:
             p.args = ["--dev", "2"]
             p.label += "/dev2"
